@@ -103,7 +103,7 @@ func (c *chain) GetSeqno(ctx context.Context, id ton.AccountID) (uint32, error) 
 	if i < len(c.v.Polls) {
 		r, v = c.v.Polls[i].R, c.v.Polls[i].V
 	}
-	c.add(ev.M{"k": "Poll", "i": i + 1, "r": r, "v": v, "us": us, "scripted": i < len(c.v.Polls)})
+	c.add(ev.M{"k": "Poll", "i": i + 1, "r": r, "v": v, "us": us, "scripted": i < len(c.v.Polls), "awc": int(id.Workchain), "for": hex.EncodeToString(id.Address[:])})
 	if r == "err" {
 		return 0, errScripted
 	}
